@@ -76,7 +76,10 @@ def dict_to_stix2(stix_dict, allow_custom=False, interoperability=False, version
         raise ParseError("Can't parse object with no 'type' property: %s" % str(stix_dict))
 
     if not version:
-        version = detect_spec_version(stix_dict)
+        try:
+            version = detect_spec_version(stix_dict)
+        except RecursionError:
+            raise ParseError("Can't parse object: nested too deeply") from None
 
     obj_type = stix_dict["type"]
     obj_class = registry.class_for_type(obj_type, version, "objects") \
@@ -138,12 +141,15 @@ def parse_observable(data, _valid_refs=None, allow_custom=False, interoperabilit
     # get deep copy since we are going modify the dict and might
     # modify the original dict as _get_dict() does not return new
     # dict when passed a dict
-    obj = copy.deepcopy(obj)
+    try:
+        obj = copy.deepcopy(obj)
+
+        if not version:
+            version = detect_spec_version(obj)
+    except RecursionError:
+        raise ParseError("Can't parse observable: nested too deeply") from None
 
     obj['_valid_refs'] = _valid_refs or []
-
-    if not version:
-        version = detect_spec_version(obj)
 
     obj_type = obj["type"]
     obj_class = registry.class_for_type(obj_type, version, "observables")
